@@ -537,6 +537,13 @@ func (r *runner) wfail() {
 	r.observe(sx.L(sx.Sym("wfail")), "wfail", nil)
 }
 
+// a write error that reports Timeout()/Temporary(): for the connection it is a write failure like any other
+func (r *runner) wtimeout() {
+	r.markFault("write-timeout")
+	r.w.cn.releaseWrite(timeoutErr{})
+	r.observe(sx.L(sx.Sym("wfail")), "wfail-timeout", nil)
+}
+
 func (r *runner) connerr(eof bool) {
 	if eof {
 		r.markFault("peer-close")
